@@ -1,6 +1,6 @@
 import GaeaVerif.Model.Merge
 /-
-  Model of UNION over sharded SELECTs (C02, correspondence only):
+  Model of UNION over sharded SELECTs (C02):
   proxy/plan/plan_union.go   UnionPlan.ExecuteIn, MergeUnionResult, mergeMultiResultSet,
                              removeDuplicateValues, handleUnionOrderBy / sortResult,
                              extractOrderByInfo / getOrderByColumnIndex,
@@ -102,51 +102,59 @@ def unionOrderIndexes (fields : List FieldMeta) : List By → Option (List Nat)
     | some i, some is => some (i :: is)
     | _, _ => none
 
-/-- `MergeUnionResult` -/
-def mergeUnionResult (rs : List UResult) (distinct : List Bool) (order : List (By × Bool)) (lim : Lim) : R UResult :=
+/-- `UnionPlan.mergeMultiResultSet` -/
+def unionMergeMulti (rs : List UResult) (distinct : List Bool) : R UResult :=
   match rs with
   | [] => .ok { fields := [], rows := [] }
-  | [r] => .ok r          -- (the caller still sorts / limits; a UNION has at least two SELECTs)
-  | r :: rest =>
-    match unionLoop r rest distinct with
+  | [r] => .ok r
+  | r :: rest => unionLoop r rest distinct
+
+/-- `sortResult` / `extractOrderByInfo` -/
+def unionSort (merged : UResult) (order : List (By × Bool)) : R (List Row) :=
+  if order.isEmpty then .ok merged.rows else
+  match unionOrderIndexes merged.fields (order.map (·.1)) with
+  | none => .fail
+  | some idxs => sortRows ((idxs.map fun (i : Nat) => (i : Int)).zip (order.map (·.2))) merged.rows
+
+/-- `limitResult` -/
+def unionLimit (lim : Lim) (rows : List Row) : List Row :=
+  match lim with
+  | .none => rows
+  | .count c => (rows.drop 0).take c
+  | .offCount o c => (rows.drop o).take c
+
+/-- `MergeUnionResult` -/
+def mergeUnionResult (rs : List UResult) (distinct : List Bool) (order : List (By × Bool)) (lim : Lim) : R UResult :=
+  match unionMergeMulti rs distinct with
+  | .fail => .fail
+  | .panic => .panic
+  | .ok merged =>
+    match unionSort merged order with
     | .fail => .fail
     | .panic => .panic
-    | .ok merged =>
-      -- ORDER BY
-      let sorted : R (List Row) :=
-        if order.isEmpty then .ok merged.rows else
-        match unionOrderIndexes merged.fields (order.map (·.1)) with
-        | none => .fail
-        | some idxs => sortRows ((idxs.map fun (i : Nat) => (i : Int)).zip (order.map (·.2))) merged.rows
-      match sorted with
+    | .ok rows =>
+      let rows := unionLimit lim rows
+      -- GenerateSelectResultRowData
+      if rows.all (fun row => row.length == merged.fields.length) then .ok { merged with rows := rows }
+      else .fail
+
+/-- the sub-plans of `UnionPlan.ExecuteIn`, one after the other -/
+def unionSubs (schema : List Ty) : List (Query × List (List Row)) → R (List UResult)
+  | [] => .ok []
+  | (q, tables) :: rest =>
+    match executeIn schema q tables with
+    | .ok r =>
+      match unionSubs schema rest with
+      | .ok rs => .ok ({ fields := fieldsOf schema q tables.length, rows := r.rows } :: rs)
       | .fail => .fail
       | .panic => .panic
-      | .ok rows =>
-        -- LIMIT
-        let rows :=
-          match lim with
-          | .none => rows
-          | .count c => (rows.drop 0).take c
-          | .offCount o c => (rows.drop o).take c
-        -- GenerateSelectResultRowData
-        if rows.all (fun row => row.length == merged.fields.length) then .ok { merged with rows := rows }
-        else .fail
+    | .fail => .fail
+    | .panic => .panic
 
 /-- `UnionPlan.ExecuteIn`: every SELECT with the rows of its routed sub-tables -/
 def executeUnion (schema : List Ty) (sels : List (Query × List (List Row))) (distinct : List Bool)
     (order : List (By × Bool)) (lim : Lim) : R UResult :=
-  let rec subs : List (Query × List (List Row)) → R (List UResult)
-    | [] => .ok []
-    | (q, tables) :: rest =>
-      match executeIn schema q tables with
-      | .ok r =>
-        match subs rest with
-        | .ok rs => .ok ({ fields := fieldsOf schema q tables.length, rows := r.rows } :: rs)
-        | .fail => .fail
-        | .panic => .panic
-      | .fail => .fail
-      | .panic => .panic
-  match subs sels with
+  match unionSubs schema sels with
   | .ok rs => mergeUnionResult rs distinct order lim
   | .fail => .fail
   | .panic => .panic
